@@ -118,6 +118,19 @@ Proof. unfold e_net. destruct (pump _ _ _ _ _) as [[st r] o]. reflexivity. Qed.
 
 Ltac split4 := split; [|split; [|split; [|split]]].
 Ltac split3 := split; [|split; [|split]].
+Ltac split3' := split; [|split].
+
+(* what relates the two shells: while the tokio session is alive both hold the same engine and the handler is not
+   closing; once the session has given up (fatal error) the handler is closing or its engine is Closed - since the
+   PeerError arm no longer sets is_closing itself, the handler may still be handed reads before the worker's
+   close_initiated pass, and a Closed engine ignores them *)
+Definition sim_inv (h : ush) (k : tsh) : Prop :=
+  if t_fatal k then s_closing (u_sp h) = true \/ e_phase (g_st (u_eng h)) = PClosed
+  else u_eng h = t_eng k /\ s_closing (u_sp h) = false.
+
+Lemma sim_inv_same h h1 k :
+  u_eng h1 = u_eng h -> s_closing (u_sp h1) = s_closing (u_sp h) -> sim_inv h k -> sim_inv h1 k.
+Proof. unfold sim_inv. intros -> ->. auto. Qed.
 
 Section Sim.
 Variable cfg : ecfg.
@@ -127,77 +140,94 @@ Hypothesis tick_off : tick = true -> c_hb_ivl cfg = None.
 
 Lemma shell_sim : forall is h k,
   plain_run tick is = true ->
-  u_dead h = false -> u_eng h = t_eng k -> s_closing (u_sp h) = t_fatal k ->
+  u_dead h = false -> sim_inv h k ->
   h_last_ping (g_hb (u_eng h)) = None ->
   let '(h', l) := u_run cfg h is in
   let k' := t_run cfg k (peer_of is) in
-  u_dead h' = false /\ u_eng h' = t_eng k' /\ s_closing (u_sp h') = t_fatal k' /\
+  u_dead h' = false /\ sim_inv h' k' /\
   exists D, t_ingress k' = t_ingress k ++ D /\ s_q (u_sp h) ++ D = l_pipe l ++ s_q (u_sp h') /\
   t_ctrl k' = t_ctrl k ++ l_ctrl l.
 Proof.
-  induction is as [|i is IH]; intros h k Hp Hd He Hc Hlp.
-  - cbn. split3; auto; try congruence. exists []. rewrite !app_nil_r. auto.
+  induction is as [|i is IH]; intros h k Hp Hd Hs Hlp.
+  - cbn. split; [|split]; auto. exists []. rewrite !app_nil_r. auto.
   - unfold plain_run in Hp. cbn [forallb] in Hp. apply andb_true_iff in Hp. destruct Hp as [Hi Hp].
     cbn [u_run peer_of map concat]. fold (peer_of is).
-    (* one step: new handler state h1, its output o1, and the tokio shell after the same peer input *)
     assert (Hstep : let '(h1, o1) := u_step cfg h i in
               let k1 := t_run cfg k (to_sin i) in
-              u_dead h1 = false /\ u_eng h1 = t_eng k1 /\ s_closing (u_sp h1) = t_fatal k1 /\
+              u_dead h1 = false /\ sim_inv h1 k1 /\
               h_last_ping (g_hb (u_eng h1)) = None /\
               exists D, t_ingress k1 = t_ingress k ++ D /\ s_q (u_sp h) ++ D = uo_pipe o1 ++ s_q (u_sp h1) /\
               t_ctrl k1 = t_ctrl k ++ uo_ctrl o1).
     { unfold u_step. rewrite Hd.
       destruct i as [|d t rs| | | |rs dd|dr| | |t|]; cbn [to_sin t_run];
         try (destruct tick; cbn in Hi; discriminate).
-      - (* UStart *) split4; auto; try congruence. exists []. cbn. rewrite !app_nil_r. auto.
+      - (* UStart *) split; [first [reflexivity|exact Hd]|]; split; [exact Hs|]; split; [exact Hlp|]. exists []. cbn. rewrite !app_nil_r. auto.
       - (* UNet *)
         assert (Hrs : forallb res_open rs = true) by (destruct tick; exact Hi).
-        unfold t_step. rewrite <- Hc. destruct (s_closing (u_sp h)) eqn:Ecl.
-        + split4; auto; try congruence. exists []. cbn. rewrite !app_nil_r. auto.
-        + rewrite <- He.
+        unfold t_step. unfold sim_inv in Hs. destruct (t_fatal k) eqn:Ef.
+        + (* the session has already given up *)
+          destruct (s_closing (u_sp h)) eqn:Ecl.
+          * split; [first [reflexivity|exact Hd]|]; split; [unfold sim_inv; rewrite Ef; left; exact Ecl|]; split; [first [exact Hlp|congruence|cbn; congruence]|].
+            exists []. cbn. rewrite !app_nil_r. auto.
+          * destruct Hs as [Hs|Hs]; [discriminate|].
+            destruct (e_net_closed cfg (u_eng h) d t Hs) as [Ho Hph].
+            pose proof (e_net_last_ping cfg (u_eng h) d t) as Hl.
+            destruct (e_net cfg (u_eng h) d t) as [g' o]. cbn [fst snd] in *. subst o.
+            cbn [UringShell.has_panic existsb]. unfold u_apply.
+            cbn [close_some close_none existsb deliveries map concat deliver_all has_err ctrls sends filter app].
+            cbn [u_eng u_sp u_dead uo_pipe uo_ctrl].
+            split; [first [reflexivity|exact Hd]|]; split; [unfold sim_inv; rewrite Ef; right; exact Hph|]; split; [first [exact Hlp|congruence|cbn; congruence]|].
+            exists []. cbn. rewrite !app_nil_r. auto.
+        + destruct Hs as [He Hc]. rewrite Hc. rewrite <- He.
           pose proof (e_net_no_close cfg (u_eng h) d t) as Hnc.
           pose proof (e_input_no_panic cfg (u_eng h) (INet d t)) as Hnp. cbn [e_input] in Hnp.
           pose proof (e_net_last_ping cfg (u_eng h) d t) as Hl.
+          pose proof (e_net_err_closed cfg (u_eng h) d t) as Hec.
           destruct (e_net cfg (u_eng h) d t) as [g' o]. cbn [fst snd] in *.
           rewrite (no_panic_has o Hnp). unfold u_apply. rewrite (no_close_some o Hnc), (no_close_none o Hnc).
           pose proof (deliver_all_conserves (deliveries o) (u_sp h) rs Hrs) as Hda.
           destruct (deliver_all (u_sp h) (deliveries o) rs) as [[sp1 piped] pc].
           destruct Hda as (D1 & D2 & D3). cbn [u_eng u_sp u_dead uo_pipe uo_ctrl t_absorb t_eng t_fatal t_ingress t_ctrl].
-          split4; auto; try congruence.
-          * destruct (has_err o); cbn; congruence.
-          * exists (deliveries o). split; [reflexivity|]. split; [|reflexivity].
-            destruct (has_err o); cbn [sp_set_closing s_q]; symmetry; exact D1.
-      - (* UAttach *) split4; auto; try congruence. exists []. cbn. rewrite !app_nil_r. auto.
-      - (* UResume *) split4; auto; try congruence. exists []. cbn. rewrite !app_nil_r. auto.
+          split; [first [reflexivity|exact Hd]|]; split; [|split; [congruence|]].
+          * unfold sim_inv, t_absorb. cbn [t_fatal t_eng u_eng u_sp]. destruct (has_err o); cbv beta iota.
+            { right. apply Hec. reflexivity. }
+            { split; [reflexivity|congruence]. }
+          * exists (deliveries o). split; [reflexivity|]. split; [|reflexivity]. symmetry; exact D1.
+      - (* UAttach *) split; [first [reflexivity|exact Hd]|]; split; [eapply sim_inv_same; [| |exact Hs]; reflexivity|]; split; [first [exact Hlp|congruence|cbn; congruence]|].
+        exists []. cbn. rewrite !app_nil_r. auto.
+      - (* UResume *) split; [first [reflexivity|exact Hd]|]; split; [eapply sim_inv_same; [| |exact Hs]; reflexivity|]; split; [first [exact Hlp|congruence|cbn; congruence]|].
+        exists []. cbn. rewrite !app_nil_r. auto.
       - (* UPrepare *)
         assert (Hrs : forallb res_open rs = true) by (destruct tick; exact Hi).
         pose proof (sp_step_conserves (u_sp h) (SPrepare rs dd) Hrs) as H1.
         pose proof (sp_step_closing (u_sp h) (SPrepare rs dd) ltac:(reflexivity)) as H2.
         cbn [sp_step ev_msgs] in H1, H2. destruct (sp_prepare (u_sp h) rs dd) as [sp1 piped].
         cbn [fst snd] in *. cbn [u_eng u_sp u_dead uo_pipe uo_ctrl].
-        split4; auto; try congruence. exists []. rewrite !app_nil_r in *. auto.
+        split; [first [reflexivity|exact Hd]|]; split; [eapply sim_inv_same; [| |exact Hs]; [reflexivity|exact H2]|]; split; [first [exact Hlp|congruence|cbn; congruence]|].
+        exists []. rewrite !app_nil_r in *. auto.
       - (* UPoll *)
         pose proof (sp_step_conserves (u_sp h) (SPoll dr) ltac:(reflexivity)) as H1.
         pose proof (sp_step_closing (u_sp h) (SPoll dr) ltac:(reflexivity)) as H2.
         cbn [sp_step ev_msgs fst snd] in H1, H2. cbn [u_eng u_sp u_dead uo_pipe uo_ctrl uo_nil].
-        split4; auto; try congruence. exists []. rewrite !app_nil_r in *. cbn. auto.
+        split; [first [reflexivity|exact Hd]|]; split; [eapply sim_inv_same; [| |exact Hs]; [reflexivity|exact H2]|]; split; [first [exact Hlp|congruence|cbn; congruence]|].
+        exists []. rewrite !app_nil_r in *. cbn. auto.
       - (* UTick: only when tick = true, and then the heartbeat is off *)
         destruct tick eqn:Et; [|cbn in Hi; discriminate].
-        unfold t_step. destruct (t_fatal k) eqn:Ef.
-        + split4; auto; try congruence. exists []. cbn. rewrite !app_nil_r. auto.
-        + rewrite <- He, (e_tick_disabled cfg (u_eng h) t (tick_off eq_refl) Hlp).
+        unfold t_step. unfold sim_inv in Hs. destruct (t_fatal k) eqn:Ef.
+        + split; [first [reflexivity|exact Hd]|]; split; [unfold sim_inv; rewrite Ef; exact Hs|]; split; [first [exact Hlp|congruence|cbn; congruence]|]. exists []. cbn. rewrite !app_nil_r. auto.
+        + destruct Hs as [He Hc]. rewrite <- He, (e_tick_disabled cfg (u_eng h) t (tick_off eq_refl) Hlp).
           unfold t_absorb. cbn [has_err existsb deliveries ctrls map concat sends filter].
           rewrite !app_nil_r. cbn [t_eng t_fatal t_ingress t_ctrl].
-          split4; auto; try congruence. exists []. cbn. rewrite !app_nil_r. auto. }
+          split; [first [reflexivity|exact Hd]|]; split; [unfold sim_inv; cbn [t_fatal t_eng]; split; auto|]; split; [first [exact Hlp|congruence|cbn; congruence]|]. exists []. cbn. rewrite !app_nil_r. auto. }
     destruct (u_step cfg h i) as [h1 o1].
-    destruct Hstep as (S1 & S2 & S3 & S4 & D & S5 & S6 & S7).
+    destruct Hstep as (S1 & S2 & S4 & D & S5 & S6 & S7).
     assert (Hrun : forall l0 k0, t_run cfg k0 (l0 ++ peer_of is) = t_run cfg (t_run cfg k0 l0) (peer_of is)).
     { clear. induction l0 as [|x l0 IHl]; intros k0; [reflexivity|]. cbn. apply IHl. }
     rewrite Hrun.
-    specialize (IH h1 (t_run cfg k (to_sin i)) Hp S1 S2 S3 S4).
+    specialize (IH h1 (t_run cfg k (to_sin i)) Hp S1 S2 S4).
     destruct (u_run cfg h1 is) as [h2 l]. cbn zeta in IH.
-    destruct IH as (I1 & I2 & I3 & D' & I4 & I5 & I6).
-    split3; auto.
+    destruct IH as (I1 & I2 & D' & I4 & I5 & I6).
+    split; [|split]; auto.
     exists (D ++ D'). cbn [l_pipe l_ctrl]. split; [|split].
     + rewrite I4, S5, app_assoc. reflexivity.
     + rewrite app_assoc, S6, <- !app_assoc, I5. reflexivity.
@@ -263,12 +293,12 @@ Theorem backend_equiv_thm : forall cfg t is,
   l_pipe l ++ s_q (u_sp h) = t_ingress k /\ t_ingress k = deliveries o /\
   (* handshake outcome and error class reported to the socket *)
   l_ctrl l = t_ctrl k /\ t_ctrl k = ctrls o /\
-  s_closing (u_sp h) = t_fatal k.
+  sim_inv h k.
 Proof.
   intros cfg t is Hp.
-  pose proof (shell_sim cfg false (fun H => False_ind _ (Bool.diff_false_true H)) is (u_new t) (t_new t) Hp eq_refl eq_refl eq_refl eq_refl) as HS.
+  pose proof (shell_sim cfg false (fun H => False_ind _ (Bool.diff_false_true H)) is (u_new t) (t_new t) Hp eq_refl (conj eq_refl eq_refl) eq_refl) as HS.
   destruct (u_run cfg (u_new t) is) as [h l]. cbn zeta in HS.
-  destruct HS as (_ & _ & S3 & D & S4 & S5 & S6). cbn [t_new t_ingress t_ctrl u_new u_sp sp_init s_q app] in S4, S5, S6.
+  destruct HS as (_ & S3 & D & S4 & S5 & S6). cbn [t_new t_ingress t_ctrl u_new u_sp sp_init s_q app] in S4, S5, S6.
   destruct (peer_of_reads is Hp) as [P1 P2].
   pose proof (t_run_nets cfg (reads_of is) (t_new t) (or_introl eq_refl)) as HT.
   cbn [t_new t_eng t_ingress t_ctrl app] in HT.
@@ -287,12 +317,12 @@ Theorem backend_equiv_ticks_thm : forall cfg t is,
   c_hb_ivl cfg = None -> forallb uin_plain_tick is = true ->
   let '(h, l) := u_run cfg (u_new t) is in
   let k := t_run cfg (t_new t) (peer_of is) in
-  l_pipe l ++ s_q (u_sp h) = t_ingress k /\ l_ctrl l = t_ctrl k /\ s_closing (u_sp h) = t_fatal k.
+  l_pipe l ++ s_q (u_sp h) = t_ingress k /\ l_ctrl l = t_ctrl k /\ sim_inv h k.
 Proof.
   intros cfg t is Hoff Hp.
-  pose proof (shell_sim cfg true (fun _ => Hoff) is (u_new t) (t_new t) Hp eq_refl eq_refl eq_refl eq_refl) as HS.
+  pose proof (shell_sim cfg true (fun _ => Hoff) is (u_new t) (t_new t) Hp eq_refl (conj eq_refl eq_refl) eq_refl) as HS.
   destruct (u_run cfg (u_new t) is) as [h l]. cbn zeta in HS.
-  destruct HS as (_ & _ & S3 & D & S4 & S5 & S6). cbn [t_new t_ingress t_ctrl u_new u_sp sp_init s_q app] in S4, S5, S6.
+  destruct HS as (_ & S3 & D & S4 & S5 & S6). cbn [t_new t_ingress t_ctrl u_new u_sp sp_init s_q app] in S4, S5, S6.
   repeat split; congruence.
 Qed.
 
